@@ -13,12 +13,14 @@ of its column and nothing of any other field (so the cell is the number printed 
 row key is the printed name.  Two instances reproduce the recorded findings (a letter-less or lettered 3-digit exponent
 directly followed by a full-width negative number on the format-detection row)."""
 import z3
-from pyvc.engine import Obj
+from pyvc.engine import Obj, Builtin
 from pyvc import library as L
 from pyvc.values import PyExc, SymStr, to_int
 
-FUNCS = ['t2listing.t2listing.start_of_values', 't2listing.t2listing.key_positions', 't2listing.t2listing.parse_table_line',
-         't2listing.t2listing.read_table_line_TOUGH2', 't2listing.listingtable.key_from_line']
+FUNCS = ['t2listing.t2listing.setup_table_TOUGH2', 't2listing.t2listing.read_table_TOUGH2', 't2listing.t2listing.skip_table_TOUGH2', 't2listing.t2listing.parse_table_header_TOUGH2',
+         't2listing.t2listing.skip_to_results_line', 't2listing.t2listing.start_of_values', 't2listing.t2listing.key_positions', 't2listing.t2listing.parse_table_line',
+         't2listing.t2listing.read_table_line_TOUGH2', 't2listing.listingtable.key_from_line', 't2listing.t2listing.is_results_line',
+         't2listing.t2listing.table_expected_floats']
 
 NF = 3
 # the printed layouts: (1X, A5, I6, 3E12.5) - the element table of TOUGH2 - and (3X, A5, 2X, A5, I6, 3E13.6) - its connection table
@@ -32,16 +34,18 @@ def templates(mant):
     return {'E2': 's0.' + 'd' * mant + 'Epdd', 'N3': 's0.' + 'd' * mant + 'pddd', 'E3': 's0.' + 'd' * (mant - 1) + 'Epddd'}
 
 
-def build_row(e, name, forms, T):
+def build_row(e, name, forms, T, index=None, keys=None):
     """the key(s) and the blanks of the index field, one symbolic index digit, then the fields; returns (SymStr, sign characters)"""
     chars = [ord(c) for c in T['prefix']]
+    for (pos, _k), k in zip(T['keys'], keys or []):        # other printed names in the key columns
+        chars[pos: pos + 5] = [ord(c) for c in k]
     TEMPLATES = templates(T['mant'])
     signs = []
     def sym(k, lo_hi=None, among=None):
         c = z3.Int('%s[%d]' % (name, k))
         e.assume(z3.And(c >= lo_hi[0], c <= lo_hi[1]) if lo_hi else z3.Or(*[c == ord(a) for a in among]))
         return c
-    chars.append(sym(len(chars), (48, 57)))
+    chars.append(sym(len(chars), (48, 57)) if index is None else 48 + index)
     for f in forms:
         for t in TEMPLATES[f]:
             k = len(chars)
@@ -113,7 +117,8 @@ def _same_nonblank(e, got, want):
     # blank for every row of the path, then got must be the field, or the field without a sign column that is always blank
     gc = list(g.chars); wc = list(w.chars)
     def is_blank_valid(c):
-        return c == 32 if isinstance(c, int) else e.valid(c == 32, record=False)
+        if isinstance(c, int): return c == 32 or 9 <= c <= 13          # the line end after the last field counts as blank
+        return e.valid(c == 32, record=False)
     while gc and is_blank_valid(gc[0]): gc.pop(0)
     while gc and is_blank_valid(gc[-1]): gc.pop()
     # want = sign + body; got must be body or sign + body
@@ -124,11 +129,115 @@ def _same_nonblank(e, got, want):
     return False
 
 
+def p_results_line(e, arg):
+    """is_results_line (re.findall of '\\.[0-9]+'), the test skip_to_results_line uses to find the first row of a table: a
+    row of the printed layout counts as a results line for the number of values table_expected_floats asks for, the header
+    and units lines printed above it do not."""
+    forms, table = arg
+    T = TABLES[table]
+    tag = '[%s table, row %s]' % (table, '/'.join(forms))
+    def prog(e):
+        m = e.load_module('t2listing')
+        me = Obj(m.globals['t2listing'])
+        G = lambda q: e.get_function('t2listing.t2listing.' + q)
+        row, _s = build_row(e, 'row', forms, T)
+        want = e.call(G('table_expected_floats'), [me, table, T['cols']])
+        e.prove(want == NF, 'post:a_full_row_is_expected_to_hold_one_number_per_column' + tag)
+        e.prove(e.call(G('is_results_line'), [me, row, want]) is True, 'post:a_printed_row_is_a_results_line' + tag)
+        e.prove(e.call(G('is_results_line'), [me, row, NF + 1]) is False, 'post:a_row_does_not_count_for_more_numbers_than_it_prints' + tag)
+        for line in T['above']:
+            e.prove(e.call(G('is_results_line'), [me, line, want]) is False, 'post:header_and_units_lines_are_not_results_lines' + tag)
+    e.explore(prog, 'results_line')
+
+
+def p_table_whole(e, arg):
+    """The real setup_table_TOUGH2 on the table of the first result set, then the real read_table_TOUGH2 on the table of a
+    later result set, over a line tape (readline / tell / seek are positions in a list of lines): header, units line, blank,
+    two rows, blank, separator.  The rows of both sets are symbolic in every digit and sign; names and row indices are the
+    concrete structure.  Ensures: one row per printed row under the printed names, every cell read from its own printed field
+    of the LATER set, the cursor left behind the table."""
+    forms1, forms2, table = arg
+    T = TABLES[table]
+    tag = '[whole driver, %s table, first set %s, later set %s]' % (table, ' '.join('/'.join(f) for f in forms1), ' '.join('/'.join(f) for f in forms2))
+    names = [[' AA 1', ' BA 1'], [('    1', '    2'), ('    2', '    3')]][table == 'connection']
+    def prog(e):
+        m = e.load_module('t2listing')
+        calls = []
+        def ff(eng, args, kwargs):
+            calls.append(args[0])
+            return z3.Real('ff%d' % (len(calls) - 1))
+        e.opaque['fortran_float'] = ff
+        e.find_branches = True
+        def rows_of(setname, forms):
+            out = []
+            for k, f in enumerate(forms):
+                r, s = build_row(e, '%s_row%d' % (setname, k + 1), f, T, index=k + 1, keys=[names[k]] if table == 'element' else list(names[k]))
+                out.append((SymStr(list(r.chars) + [10]), s))
+            return out
+        set1, set2 = rows_of('first', forms1), rows_of('later', forms2)
+        for rows in (set1,):          # the quantifier: a 3-digit exponent on a format-detection row is followed by a blank
+            for (r, signs), f in zip(rows, forms1):
+                for i, g in enumerate(f[:-1]):
+                    if g != 'E2': e.assume(signs[i + 1] == 32)
+        def table_lines(rows):
+            return [T['above'][0] + '\n', T['above'][1] + '\n', '\n'] + [r for r, _s in rows] + ['\n', ' ' + '@' * 100 + '\n', '\n']
+        lines = table_lines(set1) + table_lines(set2)
+        st = {'pos': 0}
+        def readline(eng):
+            if st['pos'] >= len(lines): return ''
+            st['pos'] += 1
+            return lines[st['pos'] - 1]
+        f = Obj(None)
+        f.fields['readline'] = Builtin('file.readline', readline)
+        f.fields['tell'] = Builtin('file.tell', lambda eng: st['pos'])
+        f.fields['seek'] = Builtin('file.seek', lambda eng, p, *a: st.update(pos=p))
+        me = Obj(m.globals['t2listing'])
+        me.fields.update(_file=f, readline=Builtin('readline', readline), title='the title', _table={}, _tablenames=[], simulator='TOUGH2')
+        G = lambda q: e.get_function('t2listing.t2listing.' + q)
+        try:
+            e.call(G('setup_table_TOUGH2'), [me, table])
+            after_setup = st['pos']
+            st['pos'] = len(table_lines(set1))          # skip_to_table leaves the cursor on the header line of the next set
+            e.call(G('read_table_TOUGH2'), [me, table])
+        except PyExc as ex:
+            e.fail('post:table_is_set_up_and_read' + tag, 'raises %s: %s' % (ex.cls, ex.msg if isinstance(ex.msg, str) else '(message built from the row)')); return
+        e.prove(True, 'post:table_is_set_up_and_read' + tag)
+        tab = me.fields['_table'][table]
+        fix = e.get_function('mulgrids.fix_blockname')
+        want_names = [e.call(fix, [n]) if isinstance(n, str) else tuple(e.call(fix, [x]) for x in n) for n in names]
+        e.prove(list(tab.fields['row_name']) == want_names and me.fields['_tablenames'] == [table], 'post:one_row_per_printed_row_under_the_printed_names' + tag)
+        # frame: the table is consumed and the separator line that announces the next table is not; skipping the table
+        # (what the reader does when asked to skip it) leaves the cursor exactly where reading it does
+        n1 = len(table_lines(set1)); after_read = st['pos']
+        st['pos'] = n1
+        try:
+            e.call(G('skip_table_TOUGH2'), [me, table])
+            after_skip = st['pos']
+        except PyExc as ex:
+            after_skip = 'raises %s' % ex.cls
+        e.prove(5 <= after_setup <= 6 and n1 + 5 <= after_read <= n1 + 6, 'post:cursor_is_left_behind_the_last_row_and_before_the_next_separator' + tag)
+        e.prove(after_skip == after_read, 'post:skipping_the_table_leaves_the_cursor_where_reading_it_does' + tag)
+        ok = len(calls) == 2 * NF
+        gi = e.get_function('t2listing.listingtable.__getitem__')
+        for k in range(2):
+            if not ok: break
+            row = e.call(gi, [tab, want_names[k]])
+            for i in range(NF):
+                field = e.getslice(set2[k][0], T['field0'] + T['width'] * i, T['field0'] + T['width'] * (i + 1), None)
+                ok = ok and _same_nonblank(e, calls[k * NF + i], field) and L.equals(e, e.getitem(row, T['cols'][i]), z3.Real('ff%d' % (k * NF + i))) is True
+        e.prove(ok, 'post:cell_is_read_from_exactly_its_printed_field' + tag)
+    e.explore(prog, 'table_whole')
+
+
+TABLES['element']['above'] = [' ELEM.  INDEX     P           T          SG', '                 (PA)      (DEG-C)            (KG/M**3)', '']
+TABLES['connection']['above'] = ['   ELEM1  ELEM2  INDEX    FLOH      FLOH/FLOF       FLOF', '                          (W)        (J/KG)        (KG/S)', '']
 ALL_E2 = ('E2', 'E2', 'E2')
 LAYOUTS = [(ALL_E2, ALL_E2, ''), (ALL_E2, ('N3', 'E3', 'N3'), ''), (('N3', 'E2', 'N3'), ALL_E2, ''), (('E3', 'E3', 'E2'), ('E2', 'N3', 'E3'), ''), (('E2', 'N3', 'E3'), ('E3', 'E2', 'N3'), ''),
            (('N3', 'E2', 'E2'), ALL_E2, 'noE abutting'), (('E3', 'E2', 'E2'), ALL_E2, 'E3 abutting')]
 LAYOUTS += [(ALL_E2, ('E2', 'N3', 'E3'), '', 'connection'), (('N3', 'E3', 'E2'), ALL_E2, '', 'connection'), (('E3', 'N3', 'N3'), ('N3', 'E2', 'E3'), '', 'connection')]
-PROGRAMS = [('p_layout', a) for a in LAYOUTS]
+WHOLE = [((ALL_E2, ('E2', 'N3', 'E2')), (('N3', 'E3', 'E2'), ALL_E2), 'element'), ((('E3', 'E2', 'E2'), ALL_E2), (ALL_E2, ('E2', 'N3', 'E3')), 'connection'),
+         ((('N3', 'E2', 'N3'), ('E3', 'E3', 'E2')), (('E3', 'N3', 'N3'), ('N3', 'E2', 'E3')), 'element')]
+PROGRAMS = [('p_layout', a) for a in LAYOUTS] + [('p_table_whole', a) for a in WHOLE] + [('p_results_line', (ALL_E2, 'element')), ('p_results_line', (('N3', 'E3', 'E2'), 'connection'))]
 
 
 def programs(tier):
@@ -147,6 +256,13 @@ def programs(tier):
 
 def replay(obname, model, result):
     m = model or {}
+    if result['program'] == 'p_results_line':
+        return None if 'row' not in m else ("from t2listing import t2listing\nme = t2listing.__new__(t2listing)\nrow = %r\n"
+                                            "ok = me.is_results_line(row, 3) and not me.is_results_line(row, 4)\ndetail = 'is_results_line(%%r, 3) = %%r' %% (row, me.is_results_line(row, 3))\n") % (m['row'],)
+    if result['program'] == 'p_table_whole':
+        keys = ['first_row1', 'first_row2', 'later_row1', 'later_row2']
+        if not all(k in m for k in keys): return None
+        return ("from contracts.c05_native import native_table_whole\nok, detail = native_table_whole(%r, %r)\n") % ([m[k] for k in keys], result['arg'][2])
     if 'layout_row' not in m or 'data_row' not in m:
         return None
     table = result['arg'][3] if len(result['arg']) > 3 else 'element'
